@@ -26,6 +26,9 @@ func checkC07(c *Ctx, r *Report, tier string) {
 	visitedSetSeeded(c, r, "C07.R4")
 	r.Rule("C07.R5", "helper contracts the neighbour selection relies on: Reverse() gives the selection its own copy of the candidates (the heuristic keeps popping from the original)", 2)
 	borrow(c, r, "C19", "C19.R2", "C07.R5", "")
+	r.Rule("C07.R6", "the beam and the final cut: a visited set private to the traversal guards every push (borrowed from C01.R5); the dataset-level merge is sorted and cut on every path (borrowed from C01.R4)", 3)
+	borrow(c, r, "C01", "C01.R5", "C07.R6", "")
+	borrow(c, r, "C01", "C01.R4", "C07.R6", "storage.Dataset")
 	if len(x.missing) > 0 {
 		r.Unk("C07.R1", "index", "anchors", "-", "cannot resolve: "+strings.Join(x.missing, ", "))
 		return
@@ -625,6 +628,7 @@ func checkC10(c *Ctx, r *Report, tier string) {
 	r.Rule("C10.R6", "the partition a group of items was routed to is the partition it is handed to: no goroutine of the fan-out captures the loop's partition variable; a partition's snapshot bytes are its own (never a buffer shared with other partitions)", 3)
 	borrow(c, r, "C17", "C17.R1", "C10.R6", "")
 	snapshotIsFresh(c, r, "C10.R6", "partition")
+	catalogueRecordOrderStable(c, r, "C10.R4")
 	// len(partitions) from the count
 	if nd := c.Func("storage", "newDataset"); nd != nil {
 		ok := false
